@@ -329,7 +329,10 @@ func buildChanges() []change {
 		})
 	}
 	type withSlice struct{ S []int }
-	for _, k := range []any{[]int{1}, map[string]int{"a": 1}, withSlice{[]int{1}}, [1][]byte{{1}}, []any{"a"}, func() {}} {
+	type withAny struct{ Name any }
+	for _, k := range []any{[]int{1}, map[string]int{"a": 1}, withSlice{[]int{1}}, [1][]byte{{1}}, []any{"a"}, func() {},
+		// comparable static types whose dynamic content cannot be hashed
+		[1]any{[]byte("x")}, withAny{[]string{"x"}}, withAny{map[string]int{}}, [2]any{1, func() {}}} {
 		k := k
 		// key types Go cannot even hash
 		add(fmt.Sprintf("attr-cose-key-unhashable-%T", k), coseOnly, func(c *ctx) {
